@@ -751,6 +751,7 @@ class CallMixin:
             argsorts, ret = spec_[0], spec_[1]
             names['obj_' + om] = Builtin('obj_' + om, lambda a, k, n, f, om=om, argsorts=argsorts, ret=ret: self.opaque_fn(om, argsorts, ret, a))
         names['truthy'] = Builtin('truthy', lambda a, k, n, f: self.truth(a[0]))
+        names['kw'] = Builtin('kw', lambda a, k, n, f: getattr(a[0], 'kw', {}).get(a[1], a[2] if len(a) > 2 else ABSENT))
         names['seq_eq_from'] = Builtin('seq_eq_from', self.b_seq_eq_from)
         names['ite'] = Builtin('ite', lambda a, k, n, f: self.ite(self.truth(a[0]), a[1], a[2]))
         return names
